@@ -274,6 +274,54 @@ def gen_writer(rng, wid, shape_name, end, typed=False, composite_inv=False):
     return dict(id=wid, shape=shape_name, typed=1 if typed else 0, script=script)
 
 
+def gen_window_family(rng):
+    """stdlib::to_window over a scripted TS<Int>: tick-count and duration windows, resettable or not. Push times come in phases
+    (sparse, then dense, then sparse ...) so that a duration window's ring buffer wraps while small and has to grow while wrapped;
+    tick-count windows see resets before, with and after pushes and runs longer than their period."""
+    end = rng.choice((20, 40, 70))
+    sc = dict(window=(0, end), writers=[], probes=[], cons=[], mirrors=[], records=[], replays=[], towins=[], runs=1)
+    wid = 1
+    for _ in range(rng.randint(1, 3)):
+        script = {}
+        t = rng.choice((0, 0, 1, 3))
+        v = rng.randint(1, 50)
+        while t < end:
+            gaps = rng.choice(((1,), (1, 1, 2), (3, 4, 5), (5, 6, 7, 8), (1, 2, 9)))
+            for _ in range(rng.randint(1, 8)):
+                if t >= end:
+                    break
+                script[t] = [["d", str(v)]] if rng.random() < 0.9 else [["d", str(v + 500)], ["d", str(v)]]
+                v += 1
+                t += rng.choice(gaps)
+        src = wid
+        sc["writers"].append(dict(id=src, shape="TS", typed=0, script=script))
+        wid += 1
+        reset = None
+        if rng.random() < 0.4:
+            rs = {}
+            for _ in range(rng.randint(1, 4)):
+                rt = rng.choice(sorted(script)) if rng.random() < 0.5 else rng.randrange(end)
+                rs[rt] = [["d", "true"]]
+            reset = wid
+            sc["writers"].append(dict(id=reset, shape="SIGNAL", typed=0, script=rs))
+            wid += 1
+        for _ in range(rng.choice((1, 1, 2))):
+            kind = rng.choice(("dur", "dur", "tick"))
+            if kind == "dur":
+                period = rng.choice((2, 3, 5, 10, 20))
+                mn = rng.choice((0, 1, period, max(1, period // 2)))
+            else:
+                period = rng.choice((1, 2, 3, 5, 8))
+                mn = rng.choice((0, 1, period, max(1, period // 2)))
+            tw = dict(id=wid, src=src, kind=kind, period=period, min=mn, reset=reset if reset and rng.random() < 0.8 else None)
+            sc["towins"].append(tw)
+            sc["cons"].append(dict(id=wid * 10 + 2, src=wid, every=1))
+            if rng.random() < 0.5:
+                sc["probes"].append(dict(id=wid * 10 + 1, src=wid, until=end - 1))
+            wid += 1
+    return sc
+
+
 def emit(sc):
     lines = ["mode collections", "window %d %d" % tuple(sc["window"])]
     if sc.get("runs", 1) > 1:
@@ -287,6 +335,9 @@ def emit(sc):
         lines.append("wscript %d %s" % (w["id"], ";;".join(groups)))
     for r in sc.get("replays", []):
         lines.append("replay %d shape=%s key=%s run=%d" % (r["id"], r["shape"], r["key"], r["run"]))
+    for tw in sc.get("towins", []):
+        lines.append("towin %d %d kind=%s period=%d min=%d%s" % (tw["id"], tw["src"], tw["kind"], tw["period"], tw["min"],
+                                                              " reset=%d" % tw["reset"] if tw.get("reset") else ""))
     for m in sc.get("mirrors", []):
         lines.append("mirror %d %d%s" % (m["id"], m["src"], " run=%d" % m["run"] if "run" in m else ""))
     for p in sc.get("probes", []):
@@ -319,10 +370,19 @@ def shrink(sc):
         mids = {m["id"] for m in q.get("mirrors", []) if m["src"] == wid}
         q["mirrors"] = [m for m in q.get("mirrors", []) if m["src"] != wid]
         dead = mids | {wid}
+        tws = {t["id"] for t in q.get("towins", []) if t["src"] == wid}
+        q["towins"] = [dict(t, reset=None if t.get("reset") == wid else t.get("reset")) for t in q.get("towins", []) if t["src"] != wid]
+        dead |= tws
         for key in ("cons", "probes", "records"):
             q[key] = [x for x in q.get(key, []) if x["src"] not in dead]
         if q["writers"]:
             yield q
+    for i, t in enumerate(sc.get("towins", [])):
+        q = copy.deepcopy(sc)
+        del q["towins"][i]
+        for key in ("cons", "probes"):
+            q[key] = [x for x in q.get(key, []) if x["src"] != t["id"]]
+        yield q
     for i, w in enumerate(sc["writers"]):
         for off in sorted(w["script"]):
             q = copy.deepcopy(sc)
